@@ -444,6 +444,10 @@ class HTTP2Connection(ConnectionInterface):
             data = self._network_stream.read(self.READ_NUM_BYTES, timeout)
             if data == b"":
                 raise RemoteProtocolError("Server disconnected")
+            # Anything that h2 rejects in the incoming data is a protocol
+            # error made by the remote side, and is fatal for the connection.
+            with map_exceptions({h2.exceptions.ProtocolError: RemoteProtocolError}):
+                events: list[h2.events.Event] = self._h2_state.receive_data(data)
         except Exception as exc:
             # If we get a network error we should:
             #
@@ -456,8 +460,6 @@ class HTTP2Connection(ConnectionInterface):
             self._read_exception = exc
             self._connection_error = True
             raise exc
-
-        events: list[h2.events.Event] = self._h2_state.receive_data(data)
 
         return events
 
